@@ -30,6 +30,28 @@ def const_assign_before(site, decl_id):
     return None
 
 
+def _local_env(node, u):
+    """prod_form environment that expands the single-assignment locals of the enclosing function
+    (named size factors hoisted out of an allocation expression)"""
+    f = enclosing_function(node)
+    env = {}
+    if f is None:
+        return env
+    body = body_of(f)
+    written = {}
+    for x in walk(body):
+        if x.get('kind') in ('BinaryOperator', 'CompoundAssignOperator') and x.get('opcode') in ASSIGN_OPS:
+            rd = ref_decl(x['inner'][0])
+            if rd:
+                written[rd.get('id')] = 1
+    for v in walk(body):
+        if v.get('kind') == 'VarDecl' and v.get('name') and kids(v) and not written.get(v['id']) and int_type_info(dtype(v) or '') and (qtype(v) or '').startswith('const '):
+            init = kids(v)[-1]
+            if not any(c.get('kind') in ('CallExpr', 'CXXMemberCallExpr') for c in walk(init)):
+                env[v['name']] = init
+    return env
+
+
 def run(ctx):
     ctx.rule('C06-R1', 'load(): every pixel buffer is allocated with the class-invariant size W*H*(3+alpha)*(cw/8) for the format fields committed with it; the bytes read into it never exceed it', 4)
     ctx.rule('C06-R2', 'grayscale expansion: indices (y*W+x)*stride+k within the pixel, source read (incl. alpha) before the destination pixel is written, temporaries as wide as the samples, iteration from the last pixel backwards', 30)
@@ -102,7 +124,7 @@ def run(ctx):
             gds = next(m for m in methods if m.get('name') == 'get_data_size')
             inv_expr = kids([x for x in walk(body_of(gds)) if x.get('kind') == 'ReturnStmt'][0])[0]
             want = prod_form(inv_expr, env2)
-            got = prod_form(size, {})
+            got = prod_form(size, _local_env(size, u))
             key = 'alloc@%s' % ('ppm' if 'new_data' in tgt else 'bmp-' + ('rgb' if env2.get('this.has_alpha') == 0 else 'bitfields' if env2.get('this.has_alpha') == 1 else '?'))
             ctx.check(got == want, R, key, a, 'allocation %s == invariant %s' % (pf_str(got), pf_str(want)),
                       'buffer allocated with %s but the committed format needs %s bytes: pixel accesses near the end overflow the heap block' % (pf_str(got), pf_str(want)))
@@ -480,7 +502,29 @@ def run(ctx):
             lits = [int(y['value']) & 0xFFFFFFFF for y in walk(x) if y.get('kind') == 'IntegerLiteral']
             pairs = [(lits[i], lits[i + 1]) for i in range(0, len(lits) - 1, 2)]
             tbl = dict(pairs)
-    ctx.check(tbl == {0xFF << (8 * i): i for i in range(4)}, R, 'bitfields|mask-table', L, 'mask 0xFF<<8k -> byte k', 'mask table is %s' % ({hex(k): v for k, v in (tbl or {}).items()}))
+    if tbl is None:
+        # the lookup may be a helper function of the mask: tabulate it by constant folding
+        from peval import PEval, Undecided, Fault
+        helper = None
+        for c_ in walk(lbody):
+            if c_.get('kind') == 'CallExpr' and len(call_args(c_)) == 1 and 'bitmask_' in canon(call_args(c_)[0]):
+                d_ = callee_decl(c_, u)
+                if d_ is not None:
+                    helper = d_ if body_of(d_) is not None else next((m for m in u.functions if m.get('mangledName') == d_.get('mangledName') and body_of(m) is not None), None)
+        if helper is not None:
+            PE_ = PEval([u])
+            tbl = {}
+            try:
+                for i_ in range(4):
+                    r_ = PE_.call_with(helper, [0xFF << (8 * i_)])
+                    if isinstance(r_, int):
+                        tbl[0xFF << (8 * i_)] = r_
+            except (Undecided, Fault):
+                tbl = None
+    if tbl is None:
+        ctx.undecided(R, 'bitfields|mask-table', L, 'the mask -> byte offset lookup is neither the offset_for_bitmask map nor a foldable helper of the mask')
+    else:
+      ctx.check(tbl == {0xFF << (8 * i): i for i in range(4)}, R, 'bitfields|mask-table', L, 'mask 0xFF<<8k -> byte k', 'mask table is %s' % ({hex(k): v for k, v in (tbl or {}).items()}))
     ia = {k: asg.get('header.info_header.bitmask_' + k) for k in 'rgba'}
     ctx.check(all(v is not None for v in ia.values()) and [(int_value(through(ia[k])) or 0) & 0xFFFFFFFF for k in 'rgba'] == [0xFF, 0xFF00, 0xFF0000, 0xFF000000], R, 'bitfields|saver-masks', ih[0], 'saver declares r,g,b,a at bytes 0,1,2,3 (memory order)', 'saver masks are %s' % {k: (hex(int_value(through(v)) & 0xFFFFFFFF) if v is not None and int_value(through(v)) is not None else None) for k, v in ia.items()})
 
@@ -502,11 +546,11 @@ def run(ctx):
     ctx.check('big_endian<unsigned int>' in (qtype(wps[2]) or '') or 'be_uint32_t' in (qtype(wps[2]) or ''), R, 'chunk|length-big-endian', wps[2], 'length is a big-endian 32-bit wrapper', 'chunk length has type %s' % qtype(wps[2]))
     crcv = next((v for v in walk(body_of(W)) if v.get('kind') == 'VarDecl' and v.get('name') == 'crc'), None)
     ctx.check(crcv is not None and ('be_uint32_t' in (qtype(crcv) or '') or 'big_endian<unsigned int>' in (dtype(crcv) or '')), R, 'chunk|crc-big-endian', crcv or W, 'crc stored big-endian', 'crc variable has type %s' % (qtype(crcv) if crcv else None))
-    crcs = [c for c in walk(body_of(W)) if c.get('kind') == 'CallExpr' and call_name(c) == 'crc32']
+    crcs = [c for c in walk_deep(body_of(W), u) if c.get('kind') == 'CallExpr' and call_name(c) == 'crc32']
     okc = len(crcs) == 2
     if okc:
         a0, a1 = call_args(crcs[0]), call_args(crcs[1])
-        okc = int_value(a0[0]) == 0 and nf(a0[1]) == 'type' and int_value(a0[2]) == 4 and 'crc' in nf(a1[0]) and nf(a1[1]) == 'data' and 'size' in nf(a1[2])
+        okc = int_value(a0[0]) == 0 and nf(a0[1]) == 'type' and int_value(a0[2]) == 4 and ('crc' in nf(a1[0]) or (ref_decl(a1[0]) or {}).get('kind') == 'VarDecl') and nf(a1[1]) == 'data' and 'size' in nf(a1[2])
         d = callee_decl(crcs[0], u)
         okc = okc and 'unsigned char' in ((d or {}).get('type', {}).get('qualType') or '') + 'Bytef' or okc
     ctx.check(okc, R, 'chunk|crc-chain', W, 'crc32(0, type, 4) then crc32(crc, data, size)', 'CRC does not cover exactly the type followed by the data')
@@ -537,8 +581,11 @@ def run(ctx):
     sg = [int_value(x) for x in kids([il for il in walk(sigv) if il.get('kind') == 'InitListExpr'][0])] if sigv is not None else None
     ctx.check(sg == [137, 80, 78, 71, 13, 10, 26, 10], R, 'png|signature', sigv or case_png, 'PNG signature', 'signature bytes %s' % sg)
     # scanline layout: filter byte + row
-    isz = [nf(kids(v)[-1]) for v in walk(case_png) if v.get('kind') == 'VarDecl' and v.get('name') == 'image_size' and kids(v)]
-    ctx.check(isz == ['(' + ' * '.join(sorted(['this.height', '(' + ' + '.join(sorted(['1', '(pixel_size * this.width)'])) + ')'])) + ')'], R, 'png|scanlines', case_png, 'H * (1 + W*pixel_size)', 'raw IDAT size is %s' % isz)
+    from guard import subst_locals
+    isz = [renorm(subst_locals(nf(kids(v)[-1]), v)) for v in walk(case_png) if v.get('kind') == 'VarDecl' and v.get('name') == 'image_size' and kids(v)]
+    psz = next((subst_locals(nf(kids(v)[-1]), v) for v in walk(case_png) if v.get('kind') == 'VarDecl' and v.get('name') == 'pixel_size' and kids(v)), 'pixel_size')
+    want_isz = {renorm('(this.height * (1 + (pixel_size * this.width)))'), renorm('(this.height * (1 + (%s * this.width)))' % psz)}
+    ctx.check(len(isz) == 1 and isz[0] in want_isz, R, 'png|scanlines', case_png, 'H * (1 + W*pixel_size)', 'raw IDAT size is %s' % isz)
 
     # ------------------------------------------------------------------ R8
     R = 'C06-R8'
